@@ -70,6 +70,23 @@ def _lines(rng, tree):
             node = rng.choice(named)
             toks.append(rng.choice([node["name"]] + node["aliases"]) if rng.random() < 0.5 else node["name"])
             level = ac.enabled(node["subs"])
+        # one argv element that merely LOOKS like a path: two names joined by a blank, a name with a blank around
+        # it, another case, a proper prefix - it names a command only if it IS a name or alias of the level
+        if toks and rng.random() < 0.12:
+            r = rng.random()
+            if r < 0.5 and len(toks) >= 2:
+                j = rng.randrange(len(toks) - 1)
+                toks[j:j + 2] = [toks[j] + " " + toks[j + 1]]
+            else:
+                j = rng.randrange(len(toks))
+                t = toks[j]
+                toks[j] = rng.choice([t + " ", " " + t, t.upper(), t.capitalize(), t[:-1] or "x", t + ":" + t])
+            node, level = None, cmds
+            for t in toks:
+                c = _lookup(level, t)
+                if c is None:
+                    break
+                node, level = c, ac.enabled(c["subs"])
         # arguments / options / tail: mostly what the selected command takes, sometimes noise
         target = node
         if node is not None:
